@@ -192,6 +192,7 @@ func runC03(p *Prog, r *Report, tier string) {
 	}
 	all := append(c.effectSites(), c.successReturns()...)
 	r.Extra["rm_effect_sites"] = len(c.effectSites())
+	ctxDiscipline(p, r, txRoots(p, "ReceiveMessage"))
 	r.floor("ReceiveMessage-effect-sites", len(c.effectSites()), 4)
 
 	type row struct {
@@ -306,6 +307,7 @@ func runC02(p *Prog, r *Report, tier string) {
 		return
 	}
 	get := c.oneCall("T-eq", "k.GetUsedNonce")
+	ctxDiscipline(p, r, txRoots(p, "ReceiveMessage"))
 	set := c.oneCall("T-eq", "k.SetUsedNonce")
 	if get != nil && set != nil {
 		c.teq("T-eq", "lookup-nonce", c.shn(c.argTerms(get)[1].String()), "N", p.instrPos(get))
@@ -412,6 +414,7 @@ func runC04(p *Prog, r *Report, tier string) {
 		return
 	}
 	// all Mint sites program-wide
+	ctxDiscipline(p, r, txRoots(p, "ReceiveMessage"))
 	var sites []string
 	for _, fn := range p.Funcs {
 		for _, e := range p.effects(fn).direct {
